@@ -321,7 +321,7 @@ Theorem arcswap_no_panic cf p0 : config_wf cf ->
     /\ exists t st', step cf st t = Some st'.
 Proof.
   intros [H1 H2 H3 H4 H5 H6] Hl Hids. split.
-  - unfold init_state. pose proof (thread_max_total cf H6 (loads (cf_vw cf) p0 (cf_k cf))) as Ht.
+  - unfold init_state. pose proof (thread_max_total cf H6 (wloads (cf_vw cf) p0 (cf_k cf))) as Ht.
     destruct (thread_max cf _); [discriminate|congruence].
   - intros st0 sch st Hi Hr Hnf.
     assert (Hp : pinv cf st).
